@@ -486,3 +486,165 @@ def finish(ctx, level="proof"):
     except Exception as e:  # noqa  (the audit file is optional: never let it break a check)
         ctx.cov["tie_coverage"] = {"available": False, "error": "%s: %s" % (type(e).__name__, e)}
     return _finish_without_tie_coverage(ctx, level)
+
+
+# ------------------------------------------------------------------------------------------------
+# statement coverage of the REAL code by this run (measured, sys.monitoring LINE events on the code objects of src/ecdsa,
+# each line location reported once per process and then disabled; forked worker processes append what they reach to
+# per-process files that the parent merges).  It says which statements of the property's anchor files the correspondence
+# and search stages actually executed - in particular which `raise` sites (error MESSAGES are not modelled: defect F15 lived
+# in one) - so that a stream that silently stops reaching a branch shows up in the evidence.  Never a verdict by itself.
+_COV = {"on": False, "lines": set(), "dir": None, "pid": None}
+
+
+def cover_start():
+    import gc, types, tempfile
+    try:
+        mon = sys.monitoring
+        tool = mon.COVERAGE_ID
+        mon.use_tool_id(tool, "verif-cov")
+    except Exception:
+        return False
+    srcdir = os.path.join(SRC, "ecdsa") + os.sep
+    _COV.update(dir=tempfile.mkdtemp(prefix="verif-cov-"), pid=os.getpid(), on=True, srcdir=srcdir)
+
+    def cb(code, line):
+        key = (os.path.basename(code.co_filename), line)
+        if os.getpid() == _COV["pid"]:
+            _COV["lines"].add(key)
+        else:
+            try:
+                fd = os.open(os.path.join(_COV["dir"], "%d.txt" % os.getpid()), os.O_WRONLY | os.O_APPEND | os.O_CREAT, 0o600)
+                os.write(fd, ("%s:%d\n" % key).encode())
+                os.close(fd)
+            except OSError:
+                pass
+        return mon.DISABLE
+    mon.register_callback(tool, mon.events.LINE, cb)
+    seen = set()
+
+    def arm(code):
+        if id(code) in seen:
+            return
+        seen.add(id(code))
+        try:
+            mon.set_local_events(tool, code, mon.events.LINE)
+        except Exception:
+            pass
+        for c in code.co_consts:
+            if isinstance(c, types.CodeType):
+                arm(c)
+    for o in gc.get_objects():
+        c = getattr(o, "__code__", None) if isinstance(o, (types.FunctionType, types.MethodType)) else None
+        if isinstance(c, types.CodeType) and c.co_filename.startswith(srcdir) and "/test_" not in c.co_filename:
+            arm(c)
+    _COV["armed"] = len(seen)
+    return True
+
+
+def _anchor_files(pid):
+    try:
+        for l in open(os.path.join(VERIF, "properties.jsonl")):
+            d = json.loads(l)
+            if d.get("id") == pid:
+                return sorted(set(os.path.basename(f) for f in d.get("anchors", {}).get("files", [])))
+    except Exception:
+        pass
+    return []
+
+
+def cover_report(pid):
+    """per anchor file of the property: executable lines of function bodies / lines reached, functions entered, and the
+    `raise` statements reached and not reached by this run (dead-on-this-interpreter sites - Python 2 and gmpy branches -
+    are listed apart, recognised by harness/dead_sites.json)."""
+    import ast, shutil
+    if not _COV["on"]:
+        return {"available": False}
+    hit = set(_COV["lines"])
+    try:
+        for f in os.listdir(_COV["dir"]):
+            for l in open(os.path.join(_COV["dir"], f)):
+                a, _, b = l.strip().rpartition(":")
+                if a and b.isdigit():
+                    hit.add((a, int(b)))
+        shutil.rmtree(_COV["dir"], ignore_errors=True)
+    except OSError:
+        pass
+    try:
+        dead = json.load(open(os.path.join(VERIF, "harness", "dead_sites.json")))["dead_functions"]
+    except Exception:
+        dead = []
+    rep = {"available": True, "how": "sys.monitoring LINE events on src/ecdsa code objects during the correspondence and search stages of this run (forked workers included)",
+           "files": {}, "code_objects_armed": _COV.get("armed", 0)}
+    tot = {"lines": 0, "lines_reached": 0, "functions": 0, "functions_entered": 0, "raise_sites": 0, "raise_sites_reached": 0}
+    try:
+        anchored = json.load(open(os.path.join(VERIF, "harness", "anchored_functions.json")))["anchored"].get(pid) or None
+    except Exception:
+        anchored = None
+    rep["scope"] = ("the functions named by the property's anchors (harness/anchored_functions.json, from the `where` ranges at the base commit)"
+                    if anchored else "every function of the property's anchor files")
+    for fn in (sorted(anchored) if anchored else _anchor_files(pid)):
+        path = os.path.join(SRC, "ecdsa", fn)
+        only = set(anchored[fn]) if anchored else None
+        try:
+            src = open(path).read()
+            tree = ast.parse(src)
+        except Exception as e:
+            rep["files"][fn] = {"error": str(e)[:200]}
+            continue
+        srcl = src.split("\n")
+        fr = {"lines": 0, "lines_reached": 0, "functions": 0, "functions_entered": 0, "raise_sites": 0,
+              "raise_sites_reached": 0, "raise_sites_unreached": [], "functions_not_entered": []}
+
+        def visit(node, qual):
+            for ch in ast.iter_child_nodes(node):
+                if isinstance(ch, (ast.FunctionDef, ast.AsyncFunctionDef)):
+                    q = (qual + "." if qual else "") + ch.name
+                    is_dead = any(q == d or ("%s:%s@L%d" % (fn, q, ch.lineno)) == d or ("%s:%s" % (fn, q)) == d for d in dead)
+                    body_lines = set()
+                    raises = []
+                    for st in ch.body:
+                        if isinstance(st, ast.Expr) and isinstance(getattr(st, "value", None), ast.Constant) and isinstance(st.value.value, str):
+                            continue      # docstring
+                        for n in ast.walk(st):
+                            if isinstance(n, ast.stmt) and not isinstance(n, (ast.FunctionDef, ast.ClassDef)):
+                                body_lines.add(n.lineno)
+                            if isinstance(n, ast.Raise):
+                                raises.append(n.lineno)
+                    if not is_dead and (only is None or q in only):
+                        reached = {l for l in body_lines if (fn, l) in hit}
+                        fr["functions"] += 1
+                        fr["lines"] += len(body_lines)
+                        fr["lines_reached"] += len(reached)
+                        if reached:
+                            fr["functions_entered"] += 1
+                        else:
+                            fr["functions_not_entered"].append("%s@L%d" % (q, ch.lineno))
+                        for l in raises:
+                            fr["raise_sites"] += 1
+                            if (fn, l) in hit:
+                                fr["raise_sites_reached"] += 1
+                            else:
+                                fr["raise_sites_unreached"].append("%s:%d %s: %s" % (fn, l, q, srcl[l - 1].strip()[:90]))
+                    visit(ch, q)
+                elif isinstance(ch, ast.ClassDef):
+                    visit(ch, (qual + "." if qual else "") + ch.name)
+                elif isinstance(ch, (ast.If, ast.Try, ast.With, ast.For, ast.While)):
+                    visit(ch, qual)
+        visit(tree, "")
+        rep["files"][fn] = fr
+        for k in tot:
+            tot[k] += fr[k]
+    rep["totals"] = tot
+    return rep
+
+
+_finish_without_impl_coverage = finish
+
+
+def finish(ctx, level="proof"):
+    try:
+        ctx.cov["impl_coverage"] = cover_report(ctx.pid)
+    except Exception as e:  # noqa  (a measurement: never let it break a check)
+        ctx.cov["impl_coverage"] = {"available": False, "error": "%s: %s" % (type(e).__name__, e)}
+    return _finish_without_impl_coverage(ctx, level)
